@@ -42,7 +42,7 @@ package clusterinfo
 // (the handlers and the action functions tell a partial failure from a total one by a type assertion on it).
 //@ func (c *ClusterInfo) GetTopicProducers(topicName string, lookupdHTTPAddrs []string, nsqdHTTPAddrs []string) (Producers, error)
 //@   props C18 C17
-//@   requires c != nil
+//@   requires c != nil && c.client != nil
 //@   ensures[one-look-up] r4DTPCalls == old(r4DTPCalls) + 1 && r4DTPTopic == topicName
 //@   ensures[lookupd-mode] len(lookupdHTTPAddrs) != 0 ==> r4DTPKind == "lookupd" && r4DTPAddrs == lookupdHTTPAddrs
 //@   ensures[nsqd-mode] len(lookupdHTTPAddrs) == 0 ==> r4DTPKind == "nsqd" && r4DTPAddrs == nsqdHTTPAddrs
@@ -55,7 +55,7 @@ package clusterinfo
 
 //@ func (c *ClusterInfo) GetProducers(lookupdHTTPAddrs []string, nsqdHTTPAddrs []string) (Producers, error)
 //@   props C18
-//@   requires c != nil
+//@   requires c != nil && c.client != nil
 //@   ensures[one-look-up] r4DNPCalls == old(r4DNPCalls) + 1
 //@   ensures[lookupd-mode] len(lookupdHTTPAddrs) != 0 ==> r4DNPKind == "lookupd" && r4DNPAddrs == lookupdHTTPAddrs
 //@   ensures[nsqd-mode] len(lookupdHTTPAddrs) == 0 ==> r4DNPKind == "nsqd" && r4DNPAddrs == nsqdHTTPAddrs
